@@ -12,6 +12,11 @@ var FSHook func(op, path, path2 string)
 // YieldHook, if set, is called at named scheduling points.
 var YieldHook func(site string)
 
+// SQLDriver is the database/sql driver name litestream opens its own
+// connection to the source database with. The simulator may point it at a
+// wrapper around the "sqlite" driver that yields before every statement.
+var SQLDriver = "sqlite"
+
 // FS is called immediately before a file-system mutation.
 func FS(op, path, path2 string) {
 	if h := FSHook; h != nil {
